@@ -27,6 +27,13 @@ impl Name {
     #[verifier::external_body] pub fn to_string_lossy(&self) -> (r: Lossy) ensures r.v == self.v_prefixed() { unimplemented!() }
     /// stands for `*name != *version_str` (OsStr compared with str)
     #[verifier::external_body] pub fn differs_from(&self, v: &VersionFileName) -> (r: bool) ensures r == !self.is_version_file(v.id) { unimplemented!() }
+    /// `*name < *version_str` / `>` : byte-lexicographic order of the names - a strictly smaller / larger name is a different one, and
+    /// nothing else is known ("v9" > "v10")
+    #[verifier::external_body] pub fn name_lt(&self, v: &VersionFileName) -> (r: bool) ensures r ==> !self.is_version_file(v.id) { unimplemented!() }
+    #[verifier::external_body] pub fn name_gt(&self, v: &VersionFileName) -> (r: bool) ensures r ==> !self.is_version_file(v.id) { unimplemented!() }
+    /// `<=` / `>=`: true for the same name
+    #[verifier::external_body] pub fn name_le(&self, v: &VersionFileName) -> (r: bool) ensures self.is_version_file(v.id) ==> r { unimplemented!() }
+    #[verifier::external_body] pub fn name_ge(&self, v: &VersionFileName) -> (r: bool) ensures self.is_version_file(v.id) ==> r { unimplemented!() }
 }
 pub struct Lossy { pub v: bool }
 impl Lossy { #[verifier::external_body] pub fn starts_with(&self, c: char) -> (r: bool) requires c == 'v' ensures r == self.v { unimplemented!() } }
@@ -65,6 +72,11 @@ pub open spec fn entries_ok(s: Seq<Result<DirEntry, IoError>>) -> bool { forall|
 //@ SUBST `format ! ( "v{latest_version_id}" )` ==> `version_file_name(latest_version_id)`
 //@ SUBST `std :: fs :: read_dir ( path )` ==> `read_dir(path)`
 //@ SUBST `* name != * version_str` ==> `name.differs_from(&version_str)`
+//@ SUBST `* name == * version_str` ==> `!name.differs_from(&version_str)`
+//@ SUBST `* name < * version_str` ==> `name.name_lt(&version_str)`
+//@ SUBST `* name > * version_str` ==> `name.name_gt(&version_str)`
+//@ SUBST `* name <= * version_str` ==> `name.name_le(&version_str)`
+//@ SUBST `* name >= * version_str` ==> `name.name_ge(&version_str)`
 //@ SUBST `std :: fs :: remove_file ( $1 )` ==> `remove_file($1, Tracked(fx))`
 //@ SUBST `for file in $1 {` ==> `let mut iter__ = $1; loop { let Some(file) = iter__.next() else { break; };`
 fn cleanup_orphaned_version(
